@@ -556,6 +556,72 @@ def main(run):
                     run.case(("noisy", name, decimals, smat.tolist(), info["cutoff"], tuple(map(float, qq))), nontrivial=True)
                 run.count("noisy-coordinate cells")
 
+    # ------------------------------------------------------------------ primitive cell with a prescribed atom order
+    # (positions_to_reorder: p2s_map not ascending) x {full, compact} force constants: Hermitian, D(-q) = conj D(q), spectrum unchanged
+    # by q -> q+G, three zero eigenvalues at Gamma, compact and full layouts one spectrum  (seeded change r7-c03: index lookup by
+    # searchsorted assumed an ascending p2s_map)
+    from phonopy.harmonic.dynamical_matrix import DynamicalMatrix
+    from phonopy.harmonic.force_constants import full_fc_to_compact_fc
+    from phonopy.structure.cells import Primitive
+    n_ro = tries_ro = 0
+    while n_ro < (8 if thorough else 3) and tries_ro < 100:
+        tries_ro += 1
+        name = rng.choice(["cscl", "nacl_prim", "zincblende_prim", "hcp", "wurtzite", "triclinic", "rutile", "perovskite", "mono_P"])
+        cell, cen = U.get_cell(name)
+        smat = rng.choice([np.diag([2, 2, 2]), np.diag([2, 2, 1]), np.diag([3, 1, 2]), np.array([[2, 1, 0], [0, 2, 0], [0, 0, 1]])])
+        if len(cell) * int(round(abs(np.linalg.det(smat)))) > 72:
+            continue
+        try:
+            ph = Phonopy(cell, supercell_matrix=smat, primitive_matrix=cen, log_level=0)
+        except Exception:
+            continue
+        prim0, sc = ph.primitive, ph.supercell
+        npa = len(prim0)
+        if npa < 2:
+            continue
+        perm = list(range(npa))
+        while perm == list(range(npa)):
+            rng.shuffle(perm)
+        prim = Primitive(sc, prim0.primitive_matrix, positions_to_reorder=np.array(prim0.scaled_positions)[perm])
+        if list(prim.p2s_map) == sorted(prim.p2s_map):
+            continue
+        n_ro += 1
+        fc = gen.pair_fc(sc, max(gen.min_lattice_vector(sc.cell) * 0.45, U.nn_distance(cell) * 1.05))
+        fcc = full_fc_to_compact_fc(prim, fc)
+        info = dict(cell=name, smat=np.array(smat).tolist(), centring=cen, permutation=perm, p2s_map=list(map(int, prim.p2s_map)), n_satom=len(sc), n_patom=npa)
+        qq = np.array([rng.choice([-3, -2, -1, 1, 2, 3, 5]) / rng.choice([7.0, 8.0, 11.0]) for _ in range(3)])
+        Gv = np.array([rng.choice([-2, -1, 0, 1, 2]) for _ in range(3)], dtype="double")
+        if not Gv.any():
+            Gv[0] = 1.0
+        spec = {}
+        for layout, arr in (("full", fc), ("compact", fcc)):
+            for lang in ("C", "Py"):
+                dm = DynamicalMatrix(sc, prim, arr.copy())
+                def _D(q_):
+                    dm.run(q_, lang=lang)
+                    return dm.dynamical_matrix.copy()
+                Dq, Dm, DG, D0 = _D(qq), _D(-qq), _D(qq + Gv), _D(np.zeros(3))
+                sc_ = max(float(np.abs(Dq).max()), 1e-300)
+                site = "DynamicalMatrix.run(lang=%s), %s force constants, reordered primitive cell" % (lang, layout)
+                run.count("oracle-reordered-primitive %s/%s" % (layout, lang), section="oracle")
+                run.case(("reordered", name, np.array(smat).tolist(), tuple(perm), layout, lang, tuple(qq)), nontrivial=True)
+                if np.abs(Dq - Dq.conj().T).max() > 1e-12 * sc_:
+                    run.violation(site, "not-hermitian", "|D - D^dagger| = %.3g (scale %.3g)" % (np.abs(Dq - Dq.conj().T).max(), sc_), dict(info, q=qq.tolist()))
+                if np.abs(Dm - Dq.conj()).max() > 1e-10 * sc_:
+                    run.violation(site, "time-reversal", "|D(-q) - conj D(q)| = %.3g (scale %.3g)" % (np.abs(Dm - Dq.conj()).max(), sc_), dict(info, q=qq.tolist()))
+                e1, e2, e0 = np.linalg.eigvalsh(Dq), np.linalg.eigvalsh(DG), np.linalg.eigvalsh(D0)
+                if np.abs(e1 - e2).max() > 1e-9 * sc_:
+                    run.violation(site, "G-shift", "eigenvalues at q and q+G differ by %.3g (scale %.3g)" % (np.abs(e1 - e2).max(), sc_), dict(info, q=qq.tolist(), G=Gv.tolist()))
+                if np.sort(np.abs(e0))[2] > 1e-9 * sc_:
+                    run.violation(site, "acoustic-sum-rule", "third smallest |eigenvalue| at Gamma is %.3g (scale %.3g) for force constants obeying the sum rule" % (np.sort(np.abs(e0))[2], sc_), info)
+                spec[(layout, lang)] = e1
+        ref_ = spec[("full", "Py")]
+        for k_, v_ in spec.items():
+            if np.abs(v_ - ref_).max() > 1e-9 * max(float(np.abs(ref_).max()), 1e-300):
+                run.violation("DynamicalMatrix.run(lang=%s), %s force constants, reordered primitive cell" % (k_[1], k_[0]), "layouts-differ",
+                              "spectrum at q differs from that of the full layout / Python path by %.3g" % np.abs(v_ - ref_).max(), dict(info, q=qq.tolist()))
+    run.count("reordered-primitive cells", n_ro)
+
     # ------------------------------------------------------------------ correspondence sample (model <-> code)
     small = [c for c in cases if c["info"]["n_satom"] * c["info"]["n_patom"] <= 64][: (10 if thorough else 4)]
     lines, meta = [], []
